@@ -139,15 +139,13 @@ pub fn cmap_of(font: &FontRef) -> BTreeMap<u32, u32> {
                         }
                         has12 = true;
                         for (cp, g) in t.iter() {
-                            if g.to_u32() != 0 {
-                                best.insert(cp, g.to_u32());
-                            }
+                            best.insert(cp, g.to_u32());
                         }
                     }
                     CmapSubtable::Format4(t) if !has12 => {
                         // (the mandatory 0xFFFF end segment maps to glyph 0 = unmapped)
                         for (cp, g) in t.iter() {
-                            if g.to_u32() != 0 {
+                            if !(cp == 0xFFFF && g.to_u32() == 0) {
                                 best.insert(cp, g.to_u32());
                             }
                         }
